@@ -27,8 +27,8 @@ func (r *RNG) Intn(n int) int {
 	return int(r.U64() % uint64(n))
 }
 
-func (r *RNG) Range(lo, hi int) int { return lo + r.Intn(hi-lo+1) }
-func (r *RNG) Bool() bool           { return r.U64()&1 == 1 }
+func (r *RNG) Range(lo, hi int) int     { return lo + r.Intn(hi-lo+1) }
+func (r *RNG) Bool() bool               { return r.U64()&1 == 1 }
 func (r *RNG) Chance(num, den int) bool { return r.Intn(den) < num }
 
 func (r *RNG) Bytes(n int) []byte {
